@@ -257,6 +257,9 @@ Section Model.
     pv_rows : list fmap;               (* qvalues after distribution(min,max) *)
   }.
 
+  (* `x.min(1.0)` (x is never NaN here) *)
+  Definition clamp1 (x : T) : T := if gt x (n_one N) then n_one N else x.
+
   Definition lookup_pvalue (G : geom) (bg : list T) (score : T) : res pv_out :=
     if n_isnan N (g_gran G) then Panic 20 else
     osum <- sum_i64 21 0 (g_off G) ;;
@@ -276,7 +279,7 @@ Section Model.
         match walk_down thr (filter (fun kv => fst kv <=? s) pvd) with
         | None => Panic 25
         | Some kv =>
-            Ok {| pv_min := pmin; pv_max := snd kv; pv_avg := avg; pv_lo := mn; pv_hi := mx;
+            Ok {| pv_min := clamp1 pmin; pv_max := clamp1 (snd kv); pv_avg := avg; pv_lo := mn; pv_hi := mx;
                   pv_s := s; pv_kmax := fst kv; pv_rows := rows |}
         end
     end.
@@ -539,13 +542,14 @@ Definition tol_bg (m : nat) (bg : list dy) : dy :=
 (* C12, one refinement step: 0 = holds; otherwise the number of the violated clause.
    [m] = M, [s] the query score, [g] the granularity, [pmin..pmax] the reported range.
    The exact tails are compared with the reported f64 sums up to the relative
-   tolerance [tol]. *)
+   tolerance [tol]; the clause "within [0,1]" is checked without tolerance (since
+   /repo 91d4601 the code clamps the reported range at 1). *)
 Definition c12_check (tol : dy) (m : Z) (e : list (dy * dy)) (s g pmin pmax : dy) : Z :=
   let up := dy_add s (dy_mul (dy_ofZ (m + 1)) g) in
   let dn := dy_sub s (dy_mul (dy_ofZ (m + 2)) g) in
   if negb (dy_leb pmin pmax) then 1
   else if negb (dy_leb dy0 pmin) then 2
-  else if negb (dy_leb pmax (dy_mul one_eps20 tol)) then 3
+  else if negb (dy_leb pmax dy1) then 3
   else if negb (dy_leb (tail_dy e up) (dy_mul pmin tol)) then 4
   else if negb (dy_leb pmax (dy_mul (tail_dy e dn) tol)) then 5
   else 0.
